@@ -5,6 +5,7 @@ Domain   files of size 0, 1, small and >= 1 MiB with modification times 1980-203
          with daylight saving in both hemispheres, and custom POSIX DST rules whose switch days are placed relative
          to the real 'now' so that now and the file time fall on chosen sides of a switch.  Real clock (freezegun
          would fake the very computation under test); the zone is set with TZ + time.tzset() around the command.
+         Later additions: the packing list's file name (UTC).
 Oracle   size attribute present and equal to the bytes written (also 0).  Every lastmodificationdate, hashdate and
          creationdate has the xs:dateTime lexical form with an explicit offset; as an aware datetime it denotes
          floor(mtime) (file dates) or lies in the command's [start, end] window (hash / creation dates); its offset
